@@ -95,7 +95,9 @@ def jobs_for(tier):
            'ia5', 'utf8', 'oid', 'null', 'set-basic', 'combo-seqof-seq', 'combo-oer-enum',
            'combo-recursive', 'tag-explicit', 'seq-ext-group']
     if tier == 'thorough':
-        ids += ['combo-uper6', 'combo-choice-seq', 'combo-rec-choice', 'seq-ext-8', 'tag-big', 'real',
+        # (REAL is outside: its decoders go through struct/float C code that the proxies do not mirror
+        # exception for exception)
+        ids += ['combo-uper6', 'combo-choice-seq', 'combo-rec-choice', 'seq-ext-8', 'tag-big',
                 'seqof-size', 'bmp', 'combo-ext-nest']
     N = 4 if tier == 'quick' else 6
     jobs = []
